@@ -29,7 +29,7 @@ ASSUMPTIONS = ["decorator closures expose the guard specifications (closure intr
                "mpmath.findroot from the returned value finds the root the function aimed at",
                "vf/data/c02_exceptions.json lists the functions documented to return a magnitude or a rounded-up integer"]
 N = {"quick": 3, "thorough": 12}
-MIN_REACH = {"quick": {"functions_covered": 400, "calls_compared": 1000, "respelled": 800, "ceil_near_integer": 5},
+MIN_REACH = {"quick": {"vector_roundtrips": 60, "functions_covered": 400, "calls_compared": 1000, "respelled": 800, "ceil_near_integer": 5},
              "thorough": {"functions_covered": 400, "calls_compared": 4000}}
 SHARD_TIMEOUT = {"quick": 900, "thorough": 3300}
 mpmath.mp.dps = 50
@@ -38,7 +38,7 @@ mpmath.mp.dps = 50
 def plan(tier, seed):
     names = catalogue.module_names()
     k = 32
-    return [{"_label": f"mods{i}", "modules": names[i::k], "seed": seed, "tuples": N[tier], "tier": tier} for i in range(k)]
+    return [{"_label": "vector-pairs", "kind": "vectors", "seed": seed, "draws": 6 if tier == "quick" else 40}] + [{"_label": f"mods{i}", "modules": names[i::k], "seed": seed, "tuples": N[tier], "tier": tier} for i in range(k)]
 
 
 def load_exceptions():
@@ -108,12 +108,20 @@ def classify(mod, fname, func):
         return None, "law has further unmapped symbols"
     if isinstance(out, Symbol) and out in pmap.values():
         return None, "guard symbols ambiguous (a parameter is guarded by the result symbol)"
+    dims = {}
     for p in params:
         if p not in g["inputs"]:
-            return None, f"parameter {p} unguarded"
+            # unguarded parameter (e.g. with validate_output_same): the dimension of its law symbol is used for the arguments
+            d = getattr(pmap[p], "dimension", None)
+            if d is None or type(d).__name__ == "AnyDimension":
+                from sympy.physics import units as _u
+                d = _u.length  # wildcard symbol: any dimension will do, a length is used
+            dims[p] = d
+            continue
         if isinstance(catalogue.spec_dimension(g["inputs"][p]), list):
             return None, "sequence parameter"
-    return {"law": law, "pmap": pmap, "out": osym, "guards": g, "params": params}, None
+        dims[p] = catalogue.spec_dimension(g["inputs"][p])
+    return {"law": law, "pmap": pmap, "out": osym, "guards": g, "params": params, "dims": dims}, None
 
 
 def make_args(r, info, wide, allow_negative=True):
@@ -124,7 +132,7 @@ def make_args(r, info, wide, allow_negative=True):
     kwargs, desc = {}, {}
     for p in info["params"]:
         sym = info["pmap"][p]
-        dim = catalogue.spec_dimension(info["guards"]["inputs"][p])
+        dim = info["dims"][p]
         lo, hi = (1e-6, 1e6) if wide == "very" else ((1e-3, 1e3) if wide else (0.2, 5))
         import math
         mag = math.exp(r.uniform(math.log(lo), math.log(hi)))
@@ -148,7 +156,7 @@ def respell(r, kwargs, info):
     from symplyphysics.core.dimensions import dimension_to_si_unit
     out = {}
     for p, q in kwargs.items():
-        dim = catalogue.spec_dimension(info["guards"]["inputs"][p])
+        dim = info["dims"][p]
         unit = dimension_to_si_unit(dim)
         if unit == 1:
             out[p] = Quantity(sympy.Rational(1, 1000) * (q.scale_factor * 1000))
@@ -341,7 +349,7 @@ def ceil_near_integer(r, rec, func, info, key):
                 val = mpmath.findroot(f, x0, tol=mpmath.mpf("1e-40"))
                 if mpmath.im(val) != 0 or mpmath.re(val) <= 0:
                     continue
-                dim = catalogue.spec_dimension(info["guards"]["inputs"][p0])
+                dim = info["dims"][p0]
                 unit = dimension_to_si_unit(dim)
                 base = Quantity(unit).scale_factor if unit != 1 else 1
                 fr = sympy.Rational(str(mpmath.nstr(mpmath.re(val), 30))) / sympy.nsimplify(base, rational=True)
@@ -363,7 +371,103 @@ def ceil_near_integer(r, rec, func, info, key):
             break
 
 
+def vector_info(func):
+    from vf import units_ref
+    from vf.checks import c04
+    g = catalogue.guard_specs(func)
+    if "input" not in g["layers"]:
+        return None
+    inner = g["inner"]
+    params = list(inspect.signature(inner).parameters)
+    if any(p not in g["inputs"] for p in params):
+        return None
+    kinds = {p: c04.kind_of_param(inner, p) for p in params}
+    dims = {}
+    for p in params:
+        d = catalogue.spec_dimension(g["inputs"][p])
+        dims[p] = None if isinstance(d, list) else units_ref.observed_vector(d)
+    out = g["output"]
+    od = None
+    if out is not None and not isinstance(catalogue.spec_dimension(out), list):
+        od = units_ref.observed_vector(catalogue.spec_dimension(out))
+    return {"params": params, "kinds": kinds, "dims": dims, "out": od, "ret": str(inspect.signature(inner).return_annotation), "g": g}
+
+
+def vector_pairs_work(spec, rec):
+    """where a vector law is offered solved for different unknowns, the forms are mutual inverses"""
+    import itertools
+    import sympy
+    import symplyphysics  # noqa
+    from symplyphysics import Quantity, QuantityVector
+    from symplyphysics.core.dimensions import dimension_to_si_unit
+    r = harness.rng_for("C02v", spec["seed"])
+    with open(os.path.join(harness.HOME, "vf", "data", "c02_vector_pairs.json")) as f:
+        table = {(p["module"], p["f"], p["g"]) for p in json.load(f)["pairs"]}
+    found = set()
+    for name in catalogue.module_names():
+        if ".vector" not in name and "vector" not in name.rsplit(".", 1)[-1]:
+            continue
+        try:
+            mod = catalogue.import_module(name)
+        except Exception:  # pylint: disable=broad-except
+            continue
+        fs = []
+        for k, f in catalogue.functions(mod):
+            if k.startswith("calculate"):
+                i = vector_info(f)
+                if i and "QuantityVector" in i["ret"]:
+                    fs.append((k, f, i))
+        for (k1, f1, i1), (k2, f2, i2) in itertools.permutations(fs, 2):
+            v1 = [p for p in i1["params"] if i1["kinds"][p] == "vector"]
+            v2 = [p for p in i2["params"] if i2["kinds"][p] == "vector"]
+            s1 = {p: i1["dims"][p] for p in i1["params"] if p not in v1}
+            s2 = {p: i2["dims"][p] for p in i2["params"] if p not in v2}
+            if not (len(v1) == 1 and len(v2) == 1 and s1 == s2 and i1["out"] is not None and i1["out"] == i2["dims"][v2[0]] and i2["out"] == i1["dims"][v1[0]]):
+                continue
+            found.add((name, k1, k2))
+            short = name.split("symplyphysics.")[-1]
+            for t in range(spec["draws"]):
+                kw = {}
+                ncomp = r.choice([3, 3, 2, 1])
+                for p in i1["params"]:
+                    d = catalogue.spec_dimension(i1["g"]["inputs"][p])
+                    u = dimension_to_si_unit(d)
+                    pre = sympy.Integer(10) ** r.choice([0, 0, 3, -3])
+                    if p == v1[0]:
+                        kw[p] = QuantityVector([Quantity(sympy.Rational(r.randint(-50, 50) or 3, 7) * pre * u) for _ in range(ncomp)])
+                    else:
+                        kw[p] = Quantity(sympy.Rational(r.randint(3, 40), 7) * pre * u)
+                case = {"module": name, "f": k1, "g": k2, "arguments": {p: str([str(c) for c in v.components]) if hasattr(v, "components") else str(v) for p, v in kw.items()}}
+                try:
+                    with harness.Watchdog(60):
+                        y = f1(**kw)
+                        kw2 = {p: v for p, v in kw.items() if p != v1[0]}
+                        kw2[v2[0]] = y
+                        x = f2(**kw2)
+                except TimeoutError:
+                    rec.inconc("watchdog in vector pair")
+                    continue
+                except Exception as e:  # pylint: disable=broad-except
+                    rec.violation(f"vector-pair-raises:{short}.{k1}->{k2}", f"{short}: {k2}({k1}(v)) raised {type(e).__name__}: {str(e)[:100]}", case)
+                    break
+                a = [complex(sympy.N(c.scale_factor, 30)) for c in x.components]
+                b = [complex(sympy.N(c.scale_factor, 30)) for c in kw[v1[0]].components]
+                a += [0j] * (3 - len(a))
+                b += [0j] * (3 - len(b))
+                rec.hit("vector_roundtrips")
+                rec.case(("vector-pair", short, k1, k2, t))
+                if not all(abs(u_ - v_) <= 1e-9 * max(abs(v_), 1e-300) or abs(u_ - v_) < 1e-300 for u_, v_ in zip(a, b)):
+                    rec.violation(f"vector-pair-not-inverse:{short}.{k1}->{k2}", f"{short}: {k2}({k1}(v)) = {a} but v = {b}", case)
+                    break
+    for m in sorted(table - found):
+        rec.inconc("reviewed vector pair no longer offered by the module", {"pair": list(m)})
+    rec.extra["vector_pairs"] = len(found)
+
+
 def work(spec, rec):
+    if spec.get("kind") == "vectors":
+        vector_pairs_work(spec, rec)
+        return
     import symplyphysics  # noqa pylint: disable=unused-import
     r = harness.rng_for("C02", spec["seed"], spec["_label"])
     exceptions = load_exceptions()
